@@ -7,7 +7,7 @@ from linear_operator import to_linear_operator
 from linear_operator.operators import DiagLinearOperator, LinearOperator, MatmulLinearOperator, SumLinearOperator
 from linear_operator.utils import linear_cg
 from torch import Tensor
-from torch.autograd.function import FunctionCtx
+from torch.autograd.function import FunctionCtx, once_differentiable
 
 from .. import settings
 from ..distributions import Delta, Distribution, MultivariateNormal
@@ -83,6 +83,7 @@ class _NgdInterpTerms(torch.autograd.Function):
         return interp_mean, interp_var, kl_div
 
     @staticmethod
+    @once_differentiable
     def backward(
         ctx: FunctionCtx, interp_mean_grad: torch.Tensor, interp_var_grad: torch.Tensor, kl_div_grad: torch.Tensor
     ) -> Tuple[torch.Tensor, torch.Tensor, torch.Tensor, None]:
